@@ -1,0 +1,34 @@
+//go:build verif
+
+// Machine-checked contracts of the deployment helpers (comment-only; read by the
+// verifier in /verif, ignored by every compiler because of the build tag).
+
+package deploy
+
+/*@
+module funds
+props C13
+dialect go64
+
+// C13 (fund arithmetic only): divideFundsEvenly(a, n, f) calls f(0, x0), f(1, x1), ... in order with
+// x_j = floor(a/n) + [j < a mod n]; receivers of a zero share are not called. Hence the shares sum to a
+// (division identity below), are non-increasing and differ by at most one.
+// xcalls("f") is the ghost log of calls of the function-typed parameter f.
+pure q(a Int, n Int) Int = a / n
+pure r(a Int, n Int) Int = a % n
+
+func divideFundsEvenly(fullAmount, n, f)
+  requires n > 0 && 0 <= fullAmount && fullAmount < 18446744073709551616 && n < 9223372036854775808
+  ensures [C13] xcalls("f").len == old(xcalls("f")).len + (q(fullAmount, n) == 0 ? r(fullAmount, n) : n)
+  ensures [C13] forall j Int {xcalls("f")[old(xcalls("f")).len + j]} :: 0 <= j && j < (q(fullAmount, n) == 0 ? r(fullAmount, n) : n) ==>
+        xcalls("f")[old(xcalls("f")).len + j] == ev_f(j, q(fullAmount, n) + (j < r(fullAmount, n) ? 1 : 0))
+  loop 0
+    invariant 0 <= $i && $i <= n && quot == q(fullAmount, n) && (quot == 0 ==> $i <= r(fullAmount, n))
+    invariant rem == ($i < r(fullAmount, n) ? r(fullAmount, n) - $i : 0)
+    invariant xcalls("f").len == entry(xcalls("f")).len + $i
+    invariant forall j Int {xcalls("f")[entry(xcalls("f")).len + j]} :: 0 <= j && j < $i ==>
+        xcalls("f")[entry(xcalls("f")).len + j] == ev_f(j, quot + (j < r(fullAmount, n) ? 1 : 0))
+
+// the shares sum to the input: n*floor(a/n) + (a mod n) == a, and the number of increased shares is a mod n < n
+lemma divisionIdentity [C13]: forall a Int, n Int :: 0 <= a && n > 0 ==> n * q(a, n) + r(a, n) == a && 0 <= r(a, n) && r(a, n) < n
+@*/
